@@ -30,18 +30,49 @@ def removes_inputs(spec):
     return "allow_inputs_removal=True" in spec
 
 
-def check_pass(p, name, c, spec):
+def replay_source(spec, c_src, prev):
+    src = REPLAY_PRELUDE + passes.IMPORTS + passes.APPLY_SRC + c_src + "\nimport itertools\n" + f"spec={spec!r}\nbefore=circ.snapshot(c)\nbad=[]\n"
+    if prev is not None:
+        src += (circ.circ_src(prev, "prev") + "\nobj=eval(spec)\n"
+                "run=lambda x: Transformer.apply_transformers(x, obj) if isinstance(obj, list) else obj.transform(x)\n"
+                "try:\n    run(prev)\n    r=run(c)\nexcept Exception as e:\n    print(type(e).__name__, e); sys.exit(1)\n")
+    else:
+        src += "try:\n    r=apply_spec(spec, c)\nexcept Exception as e:\n    print(type(e).__name__, e); sys.exit(1)\n"
+    src += ("if r is c: bad.append('result is the argument object')\n"
+            "if circ.snapshot(c)!=before: bad.append('argument modified')\n"
+            "if len(r.outputs)!=len(c.outputs): bad.append('output count')\n"
+            "if r.size>c.size: bad.append('size grew')\n"
+            "if 'allow_inputs_removal=True' not in spec and list(r.inputs)!=list(c.inputs): bad.append('inputs')\n"
+            "if [i for i in c.inputs if i in r.inputs]!=list(r.inputs): bad.append('input order')\n"
+            "bad+=circ.wf_problems(r)\n"
+            "if not bad:\n"
+            "    for x in itertools.product((False,True), repeat=len(c.inputs)):\n"
+            "        a=dict(zip(c.inputs,x))\n"
+            "        ea=ref_concrete(circ.netlist_of(c), a); eb=ref_concrete(circ.netlist_of(r), {k:v for k,v in a.items() if k in r.inputs})\n"
+            "        if [ea[o] for o in c.outputs]!=[eb[o] for o in r.outputs]: bad.append(('differs', a)); break\n"
+            "print(bad)\nsys.exit(1 if bad else 0)\n")
+    return src
+
+
+def check_pass(p, name, c, spec, prev=None):
+    """prev: a circuit the *same* (kept) pass object was applied to just before (reuse of pass objects)."""
     from checks.mutators import rebuild
 
     c = rebuild(c)  # a fresh copy per pass: a pass that corrupts its argument must not poison the next case
     before = circ.snapshot(c)
     c_src, c_desc = circ.circ_src(c), circ.describe(c)  # taken *before* the pass runs: the pass may corrupt its argument
     try:
-        r = passes.apply_spec(spec, c)
+        if prev is not None:
+            # one fresh pass object, applied to `prev` and then to `c` (exactly what the replay does)
+            obj = eval(spec, dict(passes.NS))  # noqa: S307
+            run_obj = (lambda x: passes.Transformer.apply_transformers(x, obj)) if isinstance(obj, list) else obj.transform
+            run_obj(rebuild(prev))
+            r = run_obj(c)
+        else:
+            r = passes.apply_spec(spec, c)
     except Exception as e:  # noqa: BLE001
-        p.violation(f"pass-raises:{spec}:{type(e).__name__}", f"{spec} raised {type(e).__name__}: {e} on {c_desc}",
-                    REPLAY_PRELUDE + passes.IMPORTS + passes.APPLY_SRC + c_src +
-                    f"\ntry:\n    apply_spec({spec!r}, c)\nexcept Exception as e:\n    print(type(e).__name__, e); sys.exit(1)\nsys.exit(0)\n")
+        p.violation(f"pass-raises:{spec}:{type(e).__name__}", f"{spec} raised {type(e).__name__}: {e} on {c_desc}" + (" (pass object reused after " + circ.describe(prev) + ")" if prev is not None else ""),
+                    replay_source(spec, c_src, prev))
         return
     p.case(("c03", before[:3], spec), sample=f"{spec} on {name}: {circ.describe(c)} -> {circ.describe(r)}")
     problems = []
@@ -80,21 +111,8 @@ def check_pass(p, name, c, spec):
     if problems:
         p.violation(
             f"pass:{spec}:{problems[0].split(':')[0][:40]}",
-            f"{spec} on {c_desc} -> {circ.describe(r)}: {problems[:3]}",
-            REPLAY_PRELUDE + passes.IMPORTS + passes.APPLY_SRC + c_src + "\nimport itertools\n"
-            f"spec={spec!r}\nbefore=circ.snapshot(c)\nr=apply_spec(spec, c)\nbad=[]\n"
-            "if circ.snapshot(c)!=before: bad.append('argument modified')\n"
-            "if len(r.outputs)!=len(c.outputs): bad.append('output count')\n"
-            "if r.size>c.size: bad.append('size grew')\n"
-            "if 'allow_inputs_removal=True' not in spec and list(r.inputs)!=list(c.inputs): bad.append('inputs')\n"
-            "if [i for i in c.inputs if i in r.inputs]!=list(r.inputs): bad.append('input order')\n"
-            "bad+=circ.wf_problems(r)\n"
-            "if not bad:\n"
-            "    for x in itertools.product((False,True), repeat=len(c.inputs)):\n"
-            "        a=dict(zip(c.inputs,x))\n"
-            "        ea=ref_concrete(circ.netlist_of(c), a); eb=ref_concrete(circ.netlist_of(r), {k:v for k,v in a.items() if k in r.inputs})\n"
-            "        if [ea[o] for o in c.outputs]!=[eb[o] for o in r.outputs]: bad.append(('differs', a)); break\n"
-            "print(bad)\nsys.exit(1 if bad else 0)\n",
+            f"{spec} on {c_desc} -> {circ.describe(r)}: {problems[:3]}" + (" (pass object reused after " + circ.describe(prev) + ")" if prev is not None else ""),
+            replay_source(spec, c_src, prev),
         )
 
 
@@ -122,6 +140,7 @@ def unit(p, item, tier, seed):
         fam = [x for x in fam if x[0].startswith("seeded")]
     if s % 16 == 0:
         canary(p)
+    prev_c = None
     for name, c in fam:
         chosen = specs if (tier == "thorough" and name.startswith("seeded") is False) else (passes.BASIC + ["cleanup(False)", "cleanup(True)"] + rnd.sample(specs, min(6, len(specs))))
         for spec in chosen:
@@ -129,6 +148,13 @@ def unit(p, item, tier, seed):
                 if len(c.inputs) > 6:
                     continue
             check_pass(p, name, c, spec)
+        # the same kept pass objects applied to this circuit right after the previous one
+        if prev_c is not None:
+            for spec in passes.BASIC + ["(RRG() | MD())", "(MU() | MD() | ME())"]:
+                if "ME()" in spec and (len(c.inputs) > 6 or len(prev_c.inputs) > 6):
+                    continue
+                check_pass(p, name + "/after-previous", c, spec, prev=prev_c)
+        prev_c = c
 
 
 def run(rep, tier, seed, only=None):
